@@ -17,13 +17,12 @@ def env_from_inputs(m: refsem.Model, inputs: dict):
     for k, v in inputs.items():
         if k.startswith("s_") or k.startswith("p_"):
             env[k[2:]] = v
-        elif k in ("t", "dt"):
-            env[k] = v
     for s in m.states:
         env.setdefault(s, 0.0)
     for p in m.params:
         env.setdefault(p, 0.0)
-    env.setdefault("t", 0.0)
+    # time lives under its own key: a model quantity may itself be called t / time
+    env["__time__"] = inputs.get("t", 0.0)
     return env
 
 
